@@ -669,7 +669,6 @@ func RecentBranches(since time.Time, includeRemoteBranches bool, onlyRemote stri
 		return nil, errors.New(tr.Tr.Get("failed to call `git for-each-ref`: %v", err))
 	}
 	cmd.Start()
-	defer cmd.Wait()
 
 	scanner := bufio.NewScanner(outp)
 
@@ -681,8 +680,15 @@ func RecentBranches(since time.Time, includeRemoteBranches bool, onlyRemote stri
 	regex := regexp.MustCompile(fmt.Sprintf(`^(refs/[^/]+/\S+)\s+(%s)\s+(\d{4}-\d{2}-\d{2}\s+\d{2}\:\d{2}\:\d{2}\s+[\+\-]\d{4})`, ObjectIDRegex))
 	tracerx.Printf("RECENT: Getting refs >= %v", since)
 	var ret []*Ref
+	var dateErr error
+	done := false
 	for scanner.Scan() {
 		line := scanner.Text()
+		if done {
+			// Read the rest so that Git can finish and report
+			// whether it could list every ref.
+			continue
+		}
 		if match := regex.FindStringSubmatch(line); match != nil {
 			fullref := match[1]
 			sha := match[2]
@@ -699,15 +705,26 @@ func RecentBranches(since time.Time, includeRemoteBranches bool, onlyRemote stri
 			// Check the date
 			commitDate, err := ParseGitDate(match[3])
 			if err != nil {
-				return ret, err
+				dateErr = err
+				done = true
+				continue
 			}
 			if commitDate.Before(since) {
 				// the end
-				break
+				done = true
+				continue
 			}
 			tracerx.Printf("RECENT: %v (%v)", ref, commitDate)
 			ret = append(ret, &Ref{ref, reftype, sha})
 		}
+	}
+	if err := cmd.Wait(); err != nil {
+		// For instance a ref whose commit cannot be read: the sorted
+		// list is then empty, which must not pass for "no recent refs".
+		return nil, errors.New(tr.Tr.Get("error in `git for-each-ref`: %v", err))
+	}
+	if dateErr != nil {
+		return ret, dateErr
 	}
 
 	return ret, nil
